@@ -62,7 +62,7 @@ def _shrink(case):
             yield dict(c, req=dict(r, ir=dict(r["ir"], IRWaveList=w[:i] + w[i + 1:])))
 
 
-OPFRAMES = C.Kind("op-frames", impl=H.run_case, model=H.model_line, judge=_judge,
+OPFRAMES = C.Kind("op-frames", impl=H.run_case, model=H.model_line, judge=_judge, compare=H.same("frames"),
                   classify=lambda c, o: f"{c['req']['op']}:{H.outcome_of(o).split()[0]}:{len(H.frames_of(o))}frames",
                   nontrivial=_nontrivial, shrink=_shrink)
 KINDS = {"op-frames": OPFRAMES}
